@@ -1092,7 +1092,9 @@ Lemma fs_symlink_direct : forall s target p,
 Proof.
   intros s target p Hd Hlen Ht. unfold fs_symlink.
   destruct target as [|x target']; [contradiction Ht; reflexivity|].
+  rewrite (strip_or_self_abs_cleaned p (proj1 Hd)).
   rewrite (resolve_direct _ p false Hd Hlen (or_introl eq_refl)).
+  rewrite str_eqb_refl.
   destruct (st_fs s !! comps p); [reflexivity|].
   destruct (comps p); reflexivity.
 Qed.
